@@ -338,9 +338,11 @@ func runLoop(r *sup.CaseResult, rng *rand.Rand, cfg runCfg) {
 			src.failPath = failPath
 		}
 	}
-	if cfg.Fault != "" && failPath == "" {
+	if cfg.Fault != "" && cfg.Fault != "file-cb-first" && failPath == "" {
 		cfg.Fault = ""
 	}
+	var firstMu sync.Mutex
+	firstTaken := false
 	if cfg.Fault != "" {
 		failErr = fmt.Errorf("injected-%s-%08x", cfg.Fault, rng.Uint32())
 		if cfg.Fault == "readdir" {
@@ -370,6 +372,18 @@ func runLoop(r *sup.CaseResult, rng *rand.Rand, cfg runCfg) {
 			if cfg.Fault == "file-cb" && p == failPath {
 				return failErr
 			}
+			if cfg.Fault == "file-cb-first" {
+				firstMu.Lock()
+				mine := !firstTaken
+				if mine {
+					firstTaken, failPath = true, p
+				}
+				firstMu.Unlock()
+				if mine {
+					time.Sleep(30 * time.Millisecond) // workload shaping only: the producer fills the queue meanwhile
+					return failErr
+				}
+			}
 			return nil
 		}
 	}
@@ -392,6 +406,7 @@ func runLoop(r *sup.CaseResult, rng *rand.Rand, cfg runCfg) {
 	var polls, shrunk int64
 	var pollWG sync.WaitGroup
 	started := make(chan struct{})
+	abandon := make(chan struct{}) // closed when the run is given up (the loop's Wait never returned)
 	if cfg.Fault != "" {
 		for k := 0; k < 1+rng.Intn(3); k++ {
 			pollWG.Add(1)
@@ -402,6 +417,8 @@ func runLoop(r *sup.CaseResult, rng *rand.Rand, cfg runCfg) {
 				for n := 0; ; n++ {
 					select {
 					case <-done:
+						return
+					case <-abandon:
 						return
 					default:
 					}
@@ -426,13 +443,36 @@ func runLoop(r *sup.CaseResult, rng *rand.Rand, cfg runCfg) {
 		rec.add("waited", "")
 		close(done)
 	}()
-	select {
-	case <-done:
-	case <-time.After(90 * time.Second):
+	// the timer only decides when to look; a Wait() that does not return is a violation iff, in two
+	// goroutine dumps, no callback is running and every goroutine of the loop is parked on a channel
+	// or a lock (nobody is left who could let it return); otherwise the run is inconclusive
+	finished := false
+	for look := 0; look < 9 && !finished; look++ {
+		select {
+		case <-done:
+			finished = true
+		case <-time.After(10 * time.Second):
+			if look == 0 {
+				close(abandon) // the Errors() pollers are inside the loop's packages too: they leave first
+				pollWG.Wait()
+			}
+			if why := loopIsStuck(rec); why != "" {
+				firstMu.Lock()
+				fp := failPath
+				firstMu.Unlock()
+				r.Violate("wait-never-returns", fmt.Sprintf("Loop.Wait() does not return (fault %q at %q): %s", cfg.Fault, fp, why), map[string]any{"cfg": cfg})
+				return
+			}
+		}
+	}
+	if !finished {
 		r.Inconclusive = "loop did not finish within the 90 s watchdog"
 		return
 	}
 	pollWG.Wait()
+	firstMu.Lock()
+	failPath = failPath + ""
+	firstMu.Unlock()
 	r.AddObs("error_list_polls_during_faulty_runs", atomic.LoadInt64(&polls))
 	if shrunk > 0 {
 		r.Violate("error-list-shrank", fmt.Sprintf("a goroutine polling Errors() saw the list get shorter %d times", shrunk), map[string]any{"cfg": cfg})
@@ -449,6 +489,42 @@ func runLoop(r *sup.CaseResult, rng *rand.Rand, cfg runCfg) {
 		r.AddObs("hook_hits_"+k, atomic.LoadInt64(v))
 	}
 	r.AddObs("readdir_calls", atomic.LoadInt64(&src.reads))
+}
+
+// loopIsStuck: "" unless no callback is running and, in two dumps half a second apart, there are
+// goroutines inside fsloop / jobsync and every one of them is parked on a channel or a lock.
+func loopIsStuck(rec *recorder) string {
+	look := func() (int, bool) {
+		if atomic.LoadInt64(&rec.inflight) != 0 {
+			return 0, false
+		}
+		buf := make([]byte, 16<<20)
+		n, parked := 0, true
+		for _, blk := range strings.Split(string(buf[:runtime.Stack(buf, true)]), "\n\n") {
+			if !strings.Contains(blk, "goatcore/filesystem/fsloop") && !strings.Contains(blk, "goatcore/workers/jobsync") {
+				continue
+			}
+			n++
+			head := blk
+			if i := strings.IndexByte(blk, '\n'); i >= 0 {
+				head = blk[:i]
+			}
+			if !(strings.Contains(head, "[chan send") || strings.Contains(head, "[chan receive") || strings.Contains(head, "[select") || strings.Contains(head, "[sync.") || strings.Contains(head, "[semacquire")) {
+				parked = false
+			}
+		}
+		return n, parked
+	}
+	n1, p1 := look()
+	if n1 == 0 || !p1 {
+		return ""
+	}
+	time.Sleep(500 * time.Millisecond)
+	n2, p2 := look()
+	if n2 == 0 || !p2 {
+		return ""
+	}
+	return fmt.Sprintf("no callback is running and all %d goroutines inside the loop are parked on channels or locks in two dumps", n2)
 }
 
 func judge(r *sup.CaseResult, rec *recorder, cfg runCfg, wantF, wantD map[string]bool, errs []error, failErr error, failPath string) {
@@ -527,6 +603,9 @@ func judge(r *sup.CaseResult, rec *recorder, cfg runCfg, wantF, wantD map[string
 		}
 		// the fault only fires if the failing node was reached
 		reached := cfg.Fault == "readdir" || gotF[failPath] > 0 || gotD[failPath] > 0
+		if cfg.Fault == "file-cb-first" && reached {
+			r.AddObs("loops_killed_by_the_first_callback_of_a_tree_wider_than_the_queue", 1)
+		}
 		if reached && !found {
 			r.Violate("error-lost", fmt.Sprintf("injected %v at %q is not in Errors() = %v", failErr, failPath, errs), wit)
 		}
@@ -744,6 +823,13 @@ func genCfg(rng *rand.Rand, idx int) runCfg {
 	if idx%397 == 31 {
 		cfg.Shape = "wide2300"
 	}
+	if strings.HasPrefix(cfg.Shape, "wide") && idx%2 == 1 {
+		// more files than the queue holds, one or two slow consumers, and the very first file
+		// callback fails after the producer has had time to fill the queue and park on it: the
+		// loop is killed while a producer is blocked – Wait must still return, with the error
+		cfg.Fault, cfg.OnFile, cfg.UseFileF, cfg.UseDirF, cfg.C, cfg.Hold = "file-cb-first", true, false, false, 1+rng.Intn(2), 3
+		return cfg
+	}
 	switch rng.Intn(8) {
 	case 0:
 		cfg.Fault = "file-cb"
@@ -782,7 +868,7 @@ func main() {
 		Level: "exploration",
 		Race:  true,
 		Rule: "script: controlled schedule through the verif hooks – every consumer is parked at fsloop.consumer.gap / .between after it has seen empty queues, a gated source then lets the last directory be listed, the close announcement (fsloop.closed) is awaited, the consumers are released; directly on fsloop.Loop (1…16 consumers) and through fshelper.Copy. " +
-			"rand: trees (empty, single, chain of 30, fan-out 1100/2300 > channel capacity, random) × hash-keyed dir/file filters × producers/consumers 0…16 × GOMAXPROCS {1,2,4,16} × scheduling noise from the hook callback and the source's ReadDir × one injected callback/listing fault in 3/8 of the runs; event log (enter/exit/waited with one sequence counter) checked offline: exactly-once, nothing unexpected, max in-flight ≤ consumer limit, nothing after Wait, error present iff injected. distinct = distinct (configuration, hook-order signature, tree size)",
+			"rand: trees (empty, single, chain of 30, fan-out 1100/2300 > channel capacity, random) × hash-keyed dir/file filters × producers/consumers 0…16 × GOMAXPROCS {1,2,4,16} × scheduling noise from the hook callback and the source's ReadDir × one injected callback/listing fault in 3/8 of the runs (1–3 goroutines poll Errors() meanwhile); half of the fan-out trees: one or two consumers and the very first file callback fails once the producer is parked on the full queue – Wait must return and report it (a Wait that does not return is judged from goroutine dumps: no callback running, every goroutine of the loop parked); event log (enter/exit/waited with one sequence counter) checked offline: exactly-once, nothing unexpected, max in-flight ≤ consumer limit, nothing after Wait, error present iff injected. distinct = distinct (configuration, hook-order signature, tree size)",
 		Assumptions: []string{
 			"strict mode: after an error skipping is allowed, repetition is not",
 			"effective consumer limit = min(Consumers or MaxJob, MaxJob), MaxJob = NumCPU",
@@ -816,6 +902,9 @@ func main() {
 			}
 			if t.Obs["runs"] < 100 || t.Obs["callbacks"] < 1000 {
 				return "too few observed runs/callbacks"
+			}
+			if t.Obs["loops_killed_by_the_first_callback_of_a_tree_wider_than_the_queue"] == 0 || t.Obs["error_list_polls_during_faulty_runs"] == 0 {
+				return "the kill-while-the-producer-is-parked scenario / the error-list pollers observed nothing"
 			}
 			return ""
 		},
